@@ -137,6 +137,29 @@ func runReplay(doc *ReplayDoc, path string) ReplayResult {
 		ov["Replace"][filepath.Join(repoDir, rel)] = p
 		return nil
 	})
+	// environment redirects: rewrite the call sites in overlay copies of the package sources
+	if entries, err := os.ReadDir(filepath.Join(repoDir, pkgdir)); err == nil {
+		for _, en := range entries {
+			if en.IsDir() || !strings.HasSuffix(en.Name(), ".go") || strings.HasSuffix(en.Name(), "_test.go") {
+				continue
+			}
+			src, err := os.ReadFile(filepath.Join(repoDir, pkgdir, en.Name()))
+			if err != nil {
+				continue
+			}
+			out := string(src)
+			for from, to := range redirects {
+				if bytes.Contains(pkgData, []byte("func "+to+"(")) || harnessDefines(stage, pkgdir, to) {
+					out = strings.ReplaceAll(out, from+"(", to+"(")
+				}
+			}
+			if out != string(src) {
+				dst := filepath.Join(stage, pkgdir, "zz_rewritten_"+en.Name())
+				os.WriteFile(dst, []byte(out), 0o644)
+				ov["Replace"][filepath.Join(repoDir, pkgdir, en.Name())] = dst
+			}
+		}
+	}
 	ovData, _ := json.Marshal(ov)
 	ovPath := filepath.Join(stage, "overlay.json")
 	os.WriteFile(ovPath, ovData, 0o644)
@@ -218,4 +241,15 @@ func cmdReplay(args []string) int {
 	}
 	fmt.Println("not reproduced:", rr.Note)
 	return 0
+}
+
+func harnessDefines(stage, pkgdir, fn string) bool {
+	found := false
+	entries, _ := os.ReadDir(filepath.Join(stage, pkgdir))
+	for _, en := range entries {
+		if data, err := os.ReadFile(filepath.Join(stage, pkgdir, en.Name())); err == nil && bytes.Contains(data, []byte("func "+fn+"(")) {
+			found = true
+		}
+	}
+	return found
 }
